@@ -653,3 +653,24 @@ package keeper
 //@   inline
 //@ func Keeper.TotalSupplyOverwrite(c, req)
 //@   inline
+
+// ================================================================ list query (C20): the callback handed to the SDK pagination
+//
+// A function of (value, request) only; the accept/skip answer does not depend on `accumulate`; accepts exactly the
+// orders matching the status filter (unless STATUS_NIL) and the purchaser filter (case-insensitive, unless empty);
+// collects the decoded order, which is what the point query returns for that id.
+//@ func Keeper.EnterpriseUndPurchaseOrders$1(key, value, accumulate) (hit, err)
+//@   props C20
+//@   let v := decodePO(value)
+//@   pure
+//@   nopanic
+//@   ensures @filter_exact err == nil ==> hit == ((poStatusName(req.Status) == "STATUS_NIL" || equalFold(poStatusName(v.Status), poStatusName(req.Status))) && (req.Purchaser == "" || equalFold(v.Purchaser, req.Purchaser)))
+//@   ensures @collected_when_accepted err == nil && hit && accumulate ==> len(purchaseOrders) == len(old(purchaseOrders)) + 1 && purchaseOrders[len(old(purchaseOrders))] == v
+//@   ensures @earlier_items_kept forall j int :: {purchaseOrders[j]} 0 <= j && j < len(old(purchaseOrders)) ==> purchaseOrders[j] == old(purchaseOrders)[j]
+//@   ensures @nothing_collected_otherwise !(err == nil && hit && accumulate) ==> len(purchaseOrders) == len(old(purchaseOrders))
+
+// the point query: the stored order of exactly that id
+//@ func Keeper.EnterpriseUndPurchaseOrder(c, req) (resp, err)
+//@   props C20
+//@   pure
+//@   ensures err == nil ==> poHas(ent_store, req.PurchaseOrderId) && resp.PurchaseOrder == poGet(ent_store, req.PurchaseOrderId)
